@@ -83,6 +83,7 @@ func (c *MapCodec) size(ptr unsafe.Pointer) (size int) {
 
 	var iterM mapiter
 	iter := (unsafe.Pointer)(&iterM)
+	verifMapIterPtr(ptr)
 	mapiterinit(unpackEFace(c.rtype).data, ptr, iter)
 	for {
 		k := mapiterkey(iter)
@@ -91,11 +92,13 @@ func (c *MapCodec) size(ptr unsafe.Pointer) (size int) {
 		}
 		v := mapiterelem(iter)
 
+		verifYield("map.size")
 		s := c.sizeForEntry(k, v)
 		size += plenccore.SizeVarUint(uint64(s)) + s
 
 		mapiternext(iter)
 	}
+	verifMapIterEnd()
 	return size
 }
 
@@ -123,6 +126,7 @@ func (c *MapCodec) append(data []byte, ptr unsafe.Pointer) []byte {
 
 	var iterM mapiter
 	iter := (unsafe.Pointer)(&iterM)
+	verifMapIterPtr(ptr)
 	mapiterinit(unpackEFace(c.rtype).data, ptr, iter)
 	for {
 		k := mapiterkey(iter)
@@ -131,6 +135,7 @@ func (c *MapCodec) append(data []byte, ptr unsafe.Pointer) []byte {
 		}
 		v := mapiterelem(iter)
 
+		verifYield("map.append")
 		// Add the length of each entry, then the key and value
 		data = plenccore.AppendVarUint(data, uint64(c.sizeForEntry(k, v)))
 		add(c.keyCodec, k, c.keyTag)
@@ -138,6 +143,7 @@ func (c *MapCodec) append(data []byte, ptr unsafe.Pointer) []byte {
 
 		mapiternext(iter)
 	}
+	verifMapIterEnd()
 
 	return data
 }
@@ -329,6 +335,7 @@ func (c ProtoMapCodec) Size(ptr unsafe.Pointer, tag []byte) (size int) {
 	// Treat as an array of structs. Each entry carries its own tag
 	var iterM mapiter
 	iter := (unsafe.Pointer)(&iterM)
+	verifMapIterPtr(ptr)
 	mapiterinit(unpackEFace(c.rtype).data, ptr, iter)
 	for {
 		k := mapiterkey(iter)
@@ -337,11 +344,13 @@ func (c ProtoMapCodec) Size(ptr unsafe.Pointer, tag []byte) (size int) {
 		}
 		v := mapiterelem(iter)
 
+		verifYield("map.size")
 		s := c.sizeForEntry(k, v)
 		size += len(tag) + plenccore.SizeVarUint(uint64(s)) + s
 
 		mapiternext(iter)
 	}
+	verifMapIterEnd()
 	return size
 }
 
@@ -356,6 +365,7 @@ func (c ProtoMapCodec) Append(data []byte, ptr unsafe.Pointer, tag []byte) []byt
 
 	var iterM mapiter
 	iter := (unsafe.Pointer)(&iterM)
+	verifMapIterPtr(ptr)
 	mapiterinit(unpackEFace(c.rtype).data, ptr, iter)
 	for {
 		k := mapiterkey(iter)
@@ -364,6 +374,7 @@ func (c ProtoMapCodec) Append(data []byte, ptr unsafe.Pointer, tag []byte) []byt
 		}
 		v := mapiterelem(iter)
 
+		verifYield("map.append")
 		data = append(data, tag...)
 		data = plenccore.AppendVarUint(data, uint64(c.sizeForEntry(k, v)))
 		add(c.keyCodec, k, c.keyTag)
@@ -371,6 +382,7 @@ func (c ProtoMapCodec) Append(data []byte, ptr unsafe.Pointer, tag []byte) []byt
 
 		mapiternext(iter)
 	}
+	verifMapIterEnd()
 
 	return data
 }
